@@ -198,10 +198,7 @@ class Option(Evaluatable[A]):
         """
         if dotted_key_exists(self.key, options):
             value = get_dotted_key(self.key, options)
-            if isinstance(value, str):
-                keys = {self.key} | Template(value).keys(options)
-            else:
-                keys = {self.key}
+            keys = {self.key} | _templated_keys(value, options, explain=False)
         elif self.default is not MISSING:
             keys = self.default.keys(options)
         else:
@@ -217,10 +214,7 @@ class Option(Evaluatable[A]):
         options = options or {}
         if dotted_key_exists(self.key, options):
             value = get_dotted_key(self.key, options)
-            if isinstance(value, str):
-                keys = {self.key} | Template(value).explain(options)
-            else:
-                keys = {self.key}
+            keys = {self.key} | _templated_keys(value, options, explain=True)
         elif self.default is not MISSING:
             keys = self.default.explain(options)
         else:
@@ -348,6 +342,20 @@ class Option(Evaluatable[A]):
         new: Dict[str, JSON] = {}
         set_dotted_key(self.key, value, new)
         return mix(options, new)  # type: ignore
+
+
+def _templated_keys(value: JSON, options: Options, explain: bool) -> Set[str]:
+    """Keys referenced by templated strings in an option value, at any nesting depth."""
+    if isinstance(value, str):
+        template = Template(value)
+        return template.explain(options) if explain else template.keys(options)
+    if isinstance(value, Mapping):
+        return set().union(
+            *(_templated_keys(item, options, explain) for item in value.values())
+        )
+    if isinstance(value, list):
+        return set().union(*(_templated_keys(item, options, explain) for item in value))
+    return set()
 
 
 class WithOptions(Evaluatable[B]):
